@@ -737,7 +737,7 @@ def malformed_case(rng):
         doc = c["doc"]
         kind = rng.choice(["roi-less-later-spot", "int-feature-float-text", "node-in-two-tracks", "track-without-id",
                            "unknown-dimension", "duplicate-feature", "missing-isint", "spot-without-id", "disconnected-track",
-                           "string-in-float-feature", "undeclared-attribute"])
+                           "string-in-float-feature", "undeclared-attribute", "self-link", "self-link"])
         sp, tr = doc["spots"], doc["tracks"]
         if kind == "roi-less-later-spot" and len(sp) >= 2:
             for s in sp:
@@ -766,6 +766,12 @@ def malformed_case(rng):
             if len(free) < 2:
                 continue
             tr[0]["edges"].append({"s": free[0], "t": free[1], "f": {}})
+        elif kind == "self-link" and tr:
+            # a link from a spot of the track to itself: keeps every other clause of WF (tracks stay vertex-disjoint and
+            # connected); the converter accepts it, graph validation of the output must reject it
+            t0 = rng.choice(tr)
+            n0 = rng.choice([x for e in t0["edges"] for x in (e["s"], e["t"])])
+            t0["edges"].insert(rng.randint(0, len(t0["edges"])), {"s": n0, "t": n0, "f": {}})
         elif kind == "string-in-float-feature" and sp:
             rng.choice(sp)["f"]["QUALITY"] = "high"
         elif kind == "undeclared-attribute" and sp:
@@ -1022,6 +1028,17 @@ def run(ck: common.Check):
             if "unreadable" in o:      # no verdict on what a malformed document should give, but the output must be readable
                 fails = [("C16:output-unreadable", f"malformed document ({c['malformed']}): the converter returned but its output "
                           f"cannot be read back: {o['unreadable']}", "an exception or a readable geff")]
+            elif c["malformed"] == "self-link":
+                # GeffProps.C16Links.C16_graph_validation_iff / C16_counterexample_self_link: the converter accepts the
+                # document and graph validation of its output fails exactly when a kept link is a self link
+                keep, edges, _ = expected_graph(c["doc"], c["ds"], c["dt"])
+                kept_self = any(a == b for a, b, _, _ in edges)
+                got = ("exc" if "exc" in o else "graph-ok" if o.get("graph") == "ok" else "graph-rejects")
+                want = "graph-rejects" if kept_self else "graph-ok"
+                if got != want:
+                    ck.corr_broken(f"C16:self-link document: expected {want} (conversion succeeds; validate_data(graph=True) "
+                                   f"rejects iff a kept link is a self link), observed {got}", c,
+                                   {k: o.get(k) for k in ("exc", "msg", "graph", "edges") if k in o}, want)
         else:
             fails = guarded("the specification oracle", c, lambda: oracle(c, o), [("C16:harness-cannot-judge-output", "", "")])
         for key, what, exp in fails:
